@@ -32,55 +32,7 @@ func init() {
 			"c":    steplib.ConstFn(nodes, tla.MakeSet()),
 			"out":  tla.Value{},
 		})
-		set := func(f tla.Value, keys []tla.Value, v tla.Value) tla.Value {
-			return tla.FunctionSubstitution(f, []tla.FunctionSubstitutionRecord{{Keys: keys, Value: func(tla.Value) tla.Value { return v }}})
-		}
-		compare := func(v1, v2 tla.Value) bool { // \A i \in DOMAIN v1 : v1[i] <= v2[i]
-			for _, k := range steplib.Keys(v1) {
-				if v1.ApplyFunction(k).AsNumber() > v2.ApplyFunction(k).AsNumber() {
-					return false
-				}
-			}
-			return true
-		}
-		aworset := steplib.Macro{
-			Read: func(a *steplib.Access) (tla.Value, error) { // yield Query($variable)
-				v := a.Var()
-				am, rm := v.ApplyFunction(str("addMap")), v.ApplyFunction(str("remMap"))
-				var out []tla.Value
-				for _, e := range steplib.Keys(am) {
-					if !compare(am.ApplyFunction(e), rm.ApplyFunction(e)) {
-						out = append(out, e)
-					}
-				}
-				return tla.MakeSet(out...), nil
-			},
-			Write: func(a *steplib.Access, val tla.Value) error {
-				v := a.Var()
-				self := a.Self()
-				cmd, e := val.ApplyFunction(str("cmd")).AsNumber(), val.ApplyFunction(str("elem"))
-				am, rm := str("addMap"), str("remMap")
-				get := func(m tla.Value) tla.Value { return v.ApplyFunction(m).ApplyFunction(e) }
-				first, second := am, rm
-				if cmd == 2 {
-					first, second = rm, am
-				} else if cmd != 1 {
-					return nil
-				}
-				switch {
-				case !get(first).Equal(null):
-					v = set(v, []tla.Value{first, e, self}, tla.ModulePlusSymbol(get(first).ApplyFunction(self), num(1)))
-					v = set(v, []tla.Value{second, e}, null)
-				case !get(second).Equal(null):
-					v = set(v, []tla.Value{first, e, self}, tla.ModulePlusSymbol(get(second).ApplyFunction(self), num(1)))
-					v = set(v, []tla.Value{second, e}, null)
-				default:
-					v = set(v, []tla.Value{first, e, self}, num(1))
-				}
-				a.SetVar(v)
-				return nil
-			},
-		}
+		aworset := aworsetMacro(null)
 		consts := distsys.EnsureMPCalContextConfigs(
 			distsys.DefineConstantValue("NumNodes", num(n)),
 			distsys.DefineConstantValue("BenchNumRounds", num(rounds)),
@@ -93,78 +45,178 @@ func init() {
 		}
 		return sys, nil
 	}
-	envs["shopcart"] = func(cfg map[string]int) []steplib.EnvAction {
-		n := cfg["NumNodes"]
-		return []steplib.EnvAction{{Name: "merge", Weight: 150, Run: func(sys *steplib.System, ch []uint64) steplib.Obs {
-			get := func(i int) uint64 {
-				if i < len(ch) {
-					return ch[i]
+	mergeEnv := func(withC bool) func(cfg map[string]int) []steplib.EnvAction {
+		return func(cfg map[string]int) []steplib.EnvAction {
+			n := cfg["NumNodes"]
+			return []steplib.EnvAction{{Name: "merge", Weight: 150, Run: func(sys *steplib.System, ch []uint64) steplib.Obs {
+				get := func(i int) uint64 {
+					if i < len(ch) {
+						return ch[i]
+					}
+					return 0
 				}
-				return 0
-			}
-			crdt, c := sys.State.Get("crdt"), sys.State.Get("c")
-			i1 := int(get(0)%uint64(n)) + 1
-			v1 := num(i1)
-			var cands []int
-			for x := 1; x <= n; x++ {
-				if !crdt.ApplyFunction(num(x)).Equal(crdt.ApplyFunction(v1)) {
-					cands = append(cands, x)
+				crdt := sys.State.Get("crdt")
+				i1 := int(get(0)%uint64(n)) + 1
+				v1 := num(i1)
+				var cands []int
+				for x := 1; x <= n; x++ {
+					if !crdt.ApplyFunction(num(x)).Equal(crdt.ApplyFunction(v1)) {
+						cands = append(cands, x)
+					}
 				}
-			}
-			choices := []steplib.Choice{{ID: "merge.i1", Ceiling: uint(n), Index: uint(i1 - 1)}}
-			if len(cands) == 0 {
-				return sys.EnvObs("merge", false, choices, []interface{}{i1})
-			}
-			k := int(get(1) % uint64(len(cands)))
-			i2 := cands[k]
-			v2 := num(i2)
-			choices = append(choices, steplib.Choice{ID: "merge.i2", Ceiling: uint(len(cands)), Index: uint(k)})
-			am, rm := str("addMap"), str("remMap")
-			mergeKeys := func(a, b tla.Value) map[string][]tla.RecordField { return nil }
-			_ = mergeKeys
-			r1, r2 := crdt.ApplyFunction(v1), crdt.ApplyFunction(v2)
-			var addF, remF []tla.RecordField
-			for _, e := range steplib.Keys(r1.ApplyFunction(am)) {
-				var ak, rk []tla.RecordField
-				for _, nd := range steplib.Keys(r1.ApplyFunction(am).ApplyFunction(e)) {
-					mx := func(m tla.Value) tla.Value {
-						a, b := r1.ApplyFunction(m).ApplyFunction(e).ApplyFunction(nd), r2.ApplyFunction(m).ApplyFunction(e).ApplyFunction(nd)
-						if a.AsNumber() > b.AsNumber() {
-							return a
+				choices := []steplib.Choice{{ID: "merge.i1", Ceiling: uint(n), Index: uint(i1 - 1)}}
+				if len(cands) == 0 {
+					return sys.EnvObs("merge", false, choices, []interface{}{i1})
+				}
+				k := int(get(1) % uint64(len(cands)))
+				i2 := cands[k]
+				v2 := num(i2)
+				choices = append(choices, steplib.Choice{ID: "merge.i2", Ceiling: uint(len(cands)), Index: uint(k)})
+				am, rm := str("addMap"), str("remMap")
+				mergeKeys := func(a, b tla.Value) map[string][]tla.RecordField { return nil }
+				_ = mergeKeys
+				r1, r2 := crdt.ApplyFunction(v1), crdt.ApplyFunction(v2)
+				var addF, remF []tla.RecordField
+				for _, e := range steplib.Keys(r1.ApplyFunction(am)) {
+					var ak, rk []tla.RecordField
+					for _, nd := range steplib.Keys(r1.ApplyFunction(am).ApplyFunction(e)) {
+						mx := func(m tla.Value) tla.Value {
+							a, b := r1.ApplyFunction(m).ApplyFunction(e).ApplyFunction(nd), r2.ApplyFunction(m).ApplyFunction(e).ApplyFunction(nd)
+							if a.AsNumber() > b.AsNumber() {
+								return a
+							}
+							return b
 						}
-						return b
+						ak = append(ak, tla.RecordField{Key: nd, Value: mx(am)})
+						rk = append(rk, tla.RecordField{Key: nd, Value: mx(rm)})
 					}
-					ak = append(ak, tla.RecordField{Key: nd, Value: mx(am)})
-					rk = append(rk, tla.RecordField{Key: nd, Value: mx(rm)})
-				}
-				addk, remk := tla.MakeRecord(ak), tla.MakeRecord(rk)
-				le := true // CompareVectorClock(addk[e], remk[e])
-				for _, nd := range steplib.Keys(addk) {
-					if addk.ApplyFunction(nd).AsNumber() > remk.ApplyFunction(nd).AsNumber() {
-						le = false
+					addk, remk := tla.MakeRecord(ak), tla.MakeRecord(rk)
+					le := true // CompareVectorClock(addk[e], remk[e])
+					for _, nd := range steplib.Keys(addk) {
+						if addk.ApplyFunction(nd).AsNumber() > remk.ApplyFunction(nd).AsNumber() {
+							le = false
+						}
+					}
+					var nullF []tla.RecordField
+					for _, nd := range steplib.Keys(addk) {
+						nullF = append(nullF, tla.RecordField{Key: nd, Value: num(0)})
+					}
+					null := tla.MakeRecord(nullF)
+					if le {
+						addF = append(addF, tla.RecordField{Key: e, Value: null})
+						remF = append(remF, tla.RecordField{Key: e, Value: remk})
+					} else {
+						addF = append(addF, tla.RecordField{Key: e, Value: addk})
+						remF = append(remF, tla.RecordField{Key: e, Value: null})
 					}
 				}
-				var nullF []tla.RecordField
-				for _, nd := range steplib.Keys(addk) {
-					nullF = append(nullF, tla.RecordField{Key: nd, Value: num(0)})
+				res := steplib.Rec("addMap", tla.MakeRecord(addF), "remMap", tla.MakeRecord(remF))
+				set := func(f tla.Value, k, v tla.Value) tla.Value {
+					return tla.FunctionSubstitution(f, []tla.FunctionSubstitutionRecord{{Keys: []tla.Value{k}, Value: func(tla.Value) tla.Value { return v }}})
 				}
-				null := tla.MakeRecord(nullF)
-				if le {
-					addF = append(addF, tla.RecordField{Key: e, Value: null})
-					remF = append(remF, tla.RecordField{Key: e, Value: remk})
-				} else {
-					addF = append(addF, tla.RecordField{Key: e, Value: addk})
-					remF = append(remF, tla.RecordField{Key: e, Value: null})
+				sys.State.Set("crdt", set(set(crdt, v1, res), v2, res))
+				if withC {
+					c := sys.State.Get("c")
+					cn := tla.ModuleUnionSymbol(c.ApplyFunction(v1), c.ApplyFunction(v2))
+					sys.State.Set("c", set(set(c, v1, cn), v2, cn))
+				}
+				return sys.EnvObs("merge", true, choices, []interface{}{i1, i2})
+			}}}
+		}
+	}
+	envs["shopcart"] = mergeEnv(true)
+	envs["shopnode"] = mergeEnv(false)
+
+	// shopcart.tla's interactive archetype ANode(ref crdt[_], ref in, ref out) (the instance the spec leaves commented
+	// out, used by the deployment): crdt[_] via AWORSet, in via InputQueue, out plain. The input queue holds INPUT
+	// commands, decoded from the digits of cfg["INPUT"] base 2*NumElems, least significant first: digit d = cmd (d % 2:
+	// 0 Add, 1 Remove) on element d / 2.
+	builders["shopnode"] = func(cfg map[string]int) (*steplib.System, error) {
+		n, ne, nin, code := cfg["NumNodes"], cfg["NumElems"], cfg["InputLen"], cfg["INPUT"]
+		var nodes, elemsV, input []tla.Value
+		for i := 1; i <= n; i++ {
+			nodes = append(nodes, num(i))
+		}
+		for e := 0; e < ne; e++ {
+			elemsV = append(elemsV, num(e))
+		}
+		for i := 0; i < nin; i++ {
+			d := code % (2 * ne)
+			code /= 2 * ne
+			input = append(input, steplib.Rec("cmd", num(d%2+1), "elem", num(d/2)))
+		}
+		null := steplib.ConstFn(nodes, num(0))
+		emptyMap := steplib.ConstFn(elemsV, null)
+		sys := steplib.NewSystem(map[string]tla.Value{
+			"crdt": steplib.ConstFn(nodes, steplib.Rec("addMap", emptyMap, "remMap", emptyMap)),
+			"in":   tla.MakeTuple(input...),
+			"out":  tla.Value{},
+		})
+		consts := distsys.EnsureMPCalContextConfigs(
+			distsys.DefineConstantValue("NumNodes", num(n)),
+			distsys.DefineConstantValue("BenchNumRounds", num(0)),
+			distsys.DefineConstantValue("ElemSet", tla.MakeSet(elemsV...)))
+		for p := 1; p <= n; p++ {
+			sys.AddProc(fmt.Sprintf("n%d", p), num(p), shopcart.ANode, []steplib.Binding{
+				{Param: "crdt", Var: "crdt", Depth: 1, Macro: aworsetMacro(null)},
+				{Param: "in", Var: "in", Depth: 0, Macro: steplib.FIFOLink(-1)},
+				{Param: "out", Var: "out", Depth: 0, Macro: steplib.Identity}}, consts)
+		}
+		return sys, nil
+	}
+}
+
+// aworsetMacro is shopcart.tla's mapping macro AWORSet (read: Query($variable); write: the Add / Remove branches)
+func aworsetMacro(null tla.Value) steplib.Macro {
+	num := func(i int) tla.Value { return tla.MakeNumber(int32(i)) }
+	str := tla.MakeString
+	set := func(f tla.Value, keys []tla.Value, v tla.Value) tla.Value {
+		return tla.FunctionSubstitution(f, []tla.FunctionSubstitutionRecord{{Keys: keys, Value: func(tla.Value) tla.Value { return v }}})
+	}
+	compare := func(v1, v2 tla.Value) bool { // \A i \in DOMAIN v1 : v1[i] <= v2[i]
+		for _, k := range steplib.Keys(v1) {
+			if v1.ApplyFunction(k).AsNumber() > v2.ApplyFunction(k).AsNumber() {
+				return false
+			}
+		}
+		return true
+	}
+	return steplib.Macro{
+		Read: func(a *steplib.Access) (tla.Value, error) { // yield Query($variable)
+			v := a.Var()
+			am, rm := v.ApplyFunction(str("addMap")), v.ApplyFunction(str("remMap"))
+			var out []tla.Value
+			for _, e := range steplib.Keys(am) {
+				if !compare(am.ApplyFunction(e), rm.ApplyFunction(e)) {
+					out = append(out, e)
 				}
 			}
-			res := steplib.Rec("addMap", tla.MakeRecord(addF), "remMap", tla.MakeRecord(remF))
-			set := func(f tla.Value, k, v tla.Value) tla.Value {
-				return tla.FunctionSubstitution(f, []tla.FunctionSubstitutionRecord{{Keys: []tla.Value{k}, Value: func(tla.Value) tla.Value { return v }}})
+			return tla.MakeSet(out...), nil
+		},
+		Write: func(a *steplib.Access, val tla.Value) error {
+			v := a.Var()
+			self := a.Self()
+			cmd, e := val.ApplyFunction(str("cmd")).AsNumber(), val.ApplyFunction(str("elem"))
+			am, rm := str("addMap"), str("remMap")
+			get := func(m tla.Value) tla.Value { return v.ApplyFunction(m).ApplyFunction(e) }
+			first, second := am, rm
+			if cmd == 2 {
+				first, second = rm, am
+			} else if cmd != 1 {
+				return nil
 			}
-			sys.State.Set("crdt", set(set(crdt, v1, res), v2, res))
-			cn := tla.ModuleUnionSymbol(c.ApplyFunction(v1), c.ApplyFunction(v2))
-			sys.State.Set("c", set(set(c, v1, cn), v2, cn))
-			return sys.EnvObs("merge", true, choices, []interface{}{i1, i2})
-		}}}
+			switch {
+			case !get(first).Equal(null):
+				v = set(v, []tla.Value{first, e, self}, tla.ModulePlusSymbol(get(first).ApplyFunction(self), num(1)))
+				v = set(v, []tla.Value{second, e}, null)
+			case !get(second).Equal(null):
+				v = set(v, []tla.Value{first, e, self}, tla.ModulePlusSymbol(get(second).ApplyFunction(self), num(1)))
+				v = set(v, []tla.Value{second, e}, null)
+			default:
+				v = set(v, []tla.Value{first, e, self}, num(1))
+			}
+			a.SetVar(v)
+			return nil
+		},
 	}
 }
